@@ -6,6 +6,9 @@
 (*   mutret {getter, deep, mach}  the driver scribbled over the value the     *)
 (*                                getter returned, then re-read the machine   *)
 (*   help   {fn, sc, ret}         a wait/ask helper in a known scenario       *)
+(*   helpl  {fn, base, sc, list, before, after, acc, ret}  a Sync helper on a *)
+(*                                list of members (active before / vetoing),  *)
+(*                                their activity read before and after        *)
 (*   wait   {fn, chans, ctx, ret} WaitForAll / WaitForAny                     *)
 (*   async  {fn, sc, t0, te, t1, mut, expired, ret}  an async helper in one   *)
 (*                                scenario, with the ticks of the wait state  *)
@@ -94,6 +97,34 @@ EvHelp ==
   /\ l' = l + 1
   /\ UNCHANGED mach
 
+(* a Sync helper on a list of members (ApiAlgebra Part 3a).  The law is       *)
+(* judged on the activity of the members READ FROM THE REAL MACHINE after the *)
+(* call; the model of the code must give the same answer, leave the same      *)
+(* activity and agree with the tracer on whether the mutation was accepted    *)
+EvHelpList ==
+  /\ Trace[l].ev = "helpl"
+  /\ LET x == Trace[l]
+         isAdd == x.base = "AddSync"
+         known == /\ x.base \in ListFns /\ x.sc \in ListSc /\ Len(x.list) >= 1
+                  /\ \A i \in 1..Len(x.list) : x.list[i] \in ListMember
+                  /\ Len(x.after) = Len(x.list)
+                  /\ \A i \in 1..Len(x.list) : x.list[i].pre = x.before[i]
+         conf(fix) == /\ x.ret = ListCode(fix, x.base, x.sc, x.list)
+                      /\ (~x.sc.disposed =>
+                            /\ \A i \in 1..Len(x.list) :
+                                 x.after[i] = ListAfter(isAdd, x.sc, x.list)[i]
+                            /\ x.acc = ListSeenAccepted(isAdd, x.sc, x.list))
+     IN /\ viol' = IF ListLaw(x.base, x.sc, x.after, x.ret) THEN viol
+                   ELSE viol \cup {<<l, "helperlist:" \o x.fn>>}
+        /\ drift' = IF known /\ (conf(TRUE) \/ conf(FALSE)) THEN drift
+                    ELSE drift \cup {<<l, "code:" \o x.fn>>}
+        /\ stats' = [stats EXCEPT !.help = @ + 1,
+                       !.lists = IF known THEN @ \cup {<<x.base, x.sc, x.list>>} ELSE @,
+                       !.onlyAsFound = @ + (IF known /\ conf(FALSE) /\ ~conf(TRUE) THEN 1 ELSE 0),
+                       !.onlyFixed = @ + (IF known /\ conf(TRUE) /\ ~conf(FALSE) THEN 1 ELSE 0)]
+  /\ l' = l + 1
+  /\ UNCHANGED mach
+
 EvWait ==
   /\ Trace[l].ev = "wait"
   /\ LET x == Trace[l] IN
@@ -144,6 +175,7 @@ Done ==
                                 allcells |-> Cardinality(Phases \X ArgClasses),
                                 asyncsc |-> Cardinality(stats.async),
                                 asyncall |-> Cardinality(AsyncScenarios),
+                                listsc |-> Cardinality(stats.lists),
                                 onlyAsFound |-> stats.onlyAsFound,
                                 onlyFixed |-> stats.onlyFixed])>>)
   /\ l' = l + 1
@@ -152,11 +184,12 @@ Done ==
 TraceInit ==
   /\ l = 1 /\ viol = {} /\ drift = {} /\ mach = [none |-> TRUE]
   /\ stats = [alg |-> 0, copy |-> 0, help |-> 0, calls |-> 0, cells |-> {}, async |-> {},
+              lists |-> {},
               onlyAsFound |-> 0, onlyFixed |-> 0]
 
 TraceNext ==
   \/ /\ l <= Len(Trace)
-     /\ (EvAlg \/ EvSnap \/ EvMutRet \/ EvHelp \/ EvWait \/ EvAsync \/ EvCall)
+     /\ (EvAlg \/ EvSnap \/ EvMutRet \/ EvHelp \/ EvHelpList \/ EvWait \/ EvAsync \/ EvCall)
   \/ Done
 
 TraceSpec == TraceInit /\ [][TraceNext]_tvars
